@@ -35,6 +35,15 @@ def handle (cmd : String) (args : List Sx) : Option String :=
     let p : IR.Para := { st := st, kids := ← allSome Wp.Drive.InlineRun.node? nodes, lineHeight := ← lh.rat?,
                          cbx := ← cbx.rat?, width := ← width.rat?, indent := ← indent.rat?, align := a, y := ← y.rat? }
     pure (render ((LFI.paragraph (← allSome shape? shapes) p).map (fun ls => .list (ls.map Wp.Drive.InlineRun.lineSx))))
+  | "ftpara", [.list shapes, .list nodes, ws, wb, ow, fs, strut, lineH, cbx, width, indent, all, last, y] => do
+    -- as `fipara`, for a paragraph whose lines are `lineH` high in a block whose strut is `strut`
+    let st ← style? ws wb ow fs
+    let a : AlignStyle := { alignAll := ← all.atom?.bind Align.ofCss?, alignLast := ← alignLast? last,
+                            ws := st.ws, rtl := false }
+    let p : IR.Para := { st := st, kids := ← allSome Wp.Drive.InlineRun.node? nodes, lineHeight := ← lineH.rat?,
+                         cbx := ← cbx.rat?, width := ← width.rat?, indent := ← indent.rat?, align := a, y := ← y.rat? }
+    pure (render ((LFI.paragraphTall (← allSome shape? shapes) p (← strut.rat?) (← lineH.rat?)).map
+      (fun ls => .list (ls.map Wp.Drive.InlineRun.lineSx))))
   | _, _ => none
 
 end Wp.Drive.LineFloats
